@@ -4,6 +4,7 @@ package userauth
 import (
 	"encoding/binary"
 	"io"
+	"math"
 
 	"github.com/sirupsen/logrus"
 
@@ -32,7 +33,11 @@ func newUserAuthInitMsg(user string) *userAuthInitMsg {
 	}
 }
 
+// toBytes returns nil if the username does not fit the 16-bit length field.
 func (msg *userAuthInitMsg) toBytes() []byte {
+	if len(msg.username) > math.MaxUint16 {
+		return nil
+	}
 	length := headerLen + len(msg.username)
 	s := make([]byte, length)
 	binary.BigEndian.PutUint16(s[usernameLenOffset:usernameOffset], uint16(len(msg.username)))
@@ -43,6 +48,10 @@ func (msg *userAuthInitMsg) toBytes() []byte {
 // RequestAuthorization used by client to send username and get server confirmation or denial
 func RequestAuthorization(ch *tubes.Reliable, username string) bool {
 	mess := newUserAuthInitMsg(username).toBytes()
+	if mess == nil {
+		logrus.Errorf("C: username of %d bytes is too long for userauth", len(username))
+		return false
+	}
 	if len(mess) == 0 {
 		logrus.Errorf("C: client username empty userauth")
 	}
